@@ -192,9 +192,38 @@ func (s *sched) park(t *Task) {
 }
 
 // Yield is a pre-emption point.
+// DepthLimit bounds the Go call depth a world may reach outside the scheduler. A changed
+// tree can recurse without end (an import cycle that is no longer detected, an evaluator that
+// keeps calling itself); Go turns that into an unrecoverable stack overflow which would take
+// the whole harness process down. Every 4096th function entry (of the packages that carry
+// Yield) the depth of the stack is measured; beyond 150000 frames — five times what the
+// deepest generated program, a 2600-frame Zn recursion, needs, and far below the 1 GB stack
+// limit — the run ends in an ordinary, recoverable panic instead, which every harness
+// reports as a crash of the host.
+const DepthLimit = 150000
+
+const BudgetPanic = "zsim: unbounded recursion: Go call depth beyond 150000 frames"
+
+var depthBuf = make([]uintptr, DepthLimit)
+
 func Yield(site string) {
 	w := W
-	if w == nil || w.sched == nil {
+	if w == nil {
+		return
+	}
+	if w.sched == nil {
+		w.entries++
+		if w.entries&4095 == 0 {
+			n := runtime.Callers(0, depthBuf)
+			if n == len(depthBuf) {
+				panic(BudgetPanic)
+			}
+			for _, th := range []int{5000, 10000, 20000, 40000, 80000} {
+				if n > th {
+					w.Probes[fmt.Sprintf("go-call-depth>%d", th)]++
+				}
+			}
+		}
 		return
 	}
 	t := w.sched.cur
